@@ -89,12 +89,25 @@ func reportDivisionResult(queues map[common_info.QueueID]*rs.QueueAttributes) {
 	}
 }
 
+// inStableOrder returns the queues sorted by ID. Sums of floats and the hand-out of the remaining amount depend on
+// the order of iteration (1-ulp differences flip the rounding and the satisfied/unsatisfied tests), so iterating the
+// map directly makes the fair share of identical inputs differ from cycle to cycle.
+func inStableOrder(queues map[common_info.QueueID]*rs.QueueAttributes) []*rs.QueueAttributes {
+	ids := maps.Keys(queues)
+	slices.Sort(ids)
+	ordered := make([]*rs.QueueAttributes, 0, len(ids))
+	for _, id := range ids {
+		ordered = append(ordered, queues[id])
+	}
+	return ordered
+}
+
 func setDeservedResource(
 	totalResourceAmount float64, queues map[common_info.QueueID]*rs.QueueAttributes,
 	resource rs.ResourceName,
 ) (remainingAmount float64) {
 	remainingAmount = totalResourceAmount
-	for _, queue := range queues {
+	for _, queue := range inStableOrder(queues) {
 		resourceShare := queue.ResourceShare(resource)
 		deserved := resourceShare.Deserved
 		if deserved == commonconstants.UnlimitedResourceQuantity {
@@ -174,7 +187,7 @@ func divideUpToFairShare(totalResourceAmount, kValue float64, queues map[common_
 			break
 		}
 
-		for _, queue := range queues {
+		for _, queue := range inStableOrder(queues) {
 			if totalResourceAmount == 0 {
 				log.InfraLogger.V(7).Infof("no more resources, exiting")
 				break
@@ -229,7 +242,7 @@ func calcShareWeights(queues map[common_info.QueueID]*rs.QueueAttributes, resour
 
 	shareWeightsPerQueue := make(map[common_info.QueueID]float64)
 	shareWeightsSum := 0.0
-	for _, queue := range queues {
+	for _, queue := range inStableOrder(queues) {
 		if isQueueSatisfied(queue, resourceName) {
 			continue
 		}
@@ -305,7 +318,7 @@ func getResourceToGiveInCurrentRound(fairShare float64, requested float64, queue
 }
 
 func getTotalWeightsForUnsatisfied(queues map[common_info.QueueID]*rs.QueueAttributes, resourceName rs.ResourceName) (totalOverQuotaWeights float64) {
-	for _, queue := range queues {
+	for _, queue := range inStableOrder(queues) {
 		remainingRequested := getRemainingRequested(queue, resourceName)
 		if remainingRequested > 0 {
 			totalOverQuotaWeights += queue.ResourceShare(resourceName).OverQuotaWeight
@@ -326,8 +339,10 @@ func getRemainingRequested(queue *rs.QueueAttributes, resourceName rs.ResourceNa
 
 func sortByOverQuotaWeight(remainingRequested map[common_info.QueueID]*remainingRequestedResource) *scheduler_util.PriorityQueue {
 	sortedGroupQueues := scheduler_util.NewPriorityQueue(remainingRequestedOrderFn(), scheduler_util.QueueCapacityInfinite)
-	for _, remaining := range remainingRequested {
-		sortedGroupQueues.Push(remaining)
+	ids := maps.Keys(remainingRequested)
+	slices.Sort(ids)
+	for _, id := range ids {
+		sortedGroupQueues.Push(remainingRequested[id])
 	}
 	return sortedGroupQueues
 }
